@@ -26,6 +26,9 @@ LEVEL_TEXT += " " + "(CLASS) undecoded types are taken with any class, IN/CH/HS/
 # sixth-round additions
 TECHNIQUE += "; " + "frozen RFC table of character-strings that may be empty; exact evaluation of the escape gate of the compression lookup over modelled strings; comparator of the option scan's early exit"
 LEVEL_TEXT += " " + '(BLANK) character-strings the RFCs allow to be empty are parsed with blank_allowed, the CAA tag is not; (SUFFIXEXACT) the escape test in front of a compression match is exact for 0..4 backslashes at any position of the name; (OPTKEY) a stored option is replaced only by one of the same code.'
+# seventh/eighth-round addition
+TECHNIQUE += "; " + "must-pass-through from the writers of the raw response code to the parser's success return with stores to the reported code as barriers (R-C04-RCODEFINAL)"
+LEVEL_TEXT += " " + "(RCODEFINAL, eighth round) the response code a parsed message reports is settled from the complete 12-bit wire value on every path to the parser's success return; an unassigned value maps to SERVFAIL."
 LEVEL_NOTE = "trusts clang CFG + extractor and the frozen table tables/iana.json (written from the RFCs); differential agreement on all messages needs execution"
 DESIGN_REF = "DESIGN.md §6/C04"
 EXPLANATION = LEVEL_TEXT
